@@ -664,6 +664,7 @@ static void skipSingleQuoteProgramData(lex_state_t * state) {
  * @return 
  */
 int scpiLex_StringProgramData(lex_state_t * state, scpi_token_t * token) {
+    int incomplete = 0;
     token->ptr = state->pos;
 
     if (!iseos(state)) {
@@ -675,6 +676,7 @@ int scpiLex_StringProgramData(lex_state_t * state, scpi_token_t * token) {
                 state->pos++;
                 token->len = state->pos - token->ptr;
             } else {
+                incomplete = iseos(state);
                 state->pos = token->ptr;
             }
         } else if (ischr(state, '\'')) {
@@ -685,6 +687,7 @@ int scpiLex_StringProgramData(lex_state_t * state, scpi_token_t * token) {
                 state->pos++;
                 token->len = state->pos - token->ptr;
             } else {
+                incomplete = iseos(state);
                 state->pos = token->ptr;
             }
         }
@@ -699,6 +702,10 @@ int scpiLex_StringProgramData(lex_state_t * state, scpi_token_t * token) {
         token->type = SCPI_TOKEN_UNKNOWN;
         state->pos = token->ptr;
         token->len = 0;
+        if (incomplete) {
+            /* closing quote did not arrive yet - like incomplete arbitrary block, message terminator inside is not a terminator */
+            state->pos = state->buffer + state->len;
+        }
     }
 
     return token->len > 0 ? token->len : 0;
